@@ -178,7 +178,11 @@ func (n *simNet) pumpIn(c *simConn, d *simDir) {
 			d.srcClosed = true
 		}
 		d.mu.Unlock()
-		n.s.signalWake()
+		if !c.dead {
+			// (what a crashed process still writes into a connection that was cut
+			// with it must not wake the scheduler out of a time step)
+			n.s.signalWake()
+		}
 		if err != nil {
 			return
 		}
